@@ -332,3 +332,10 @@ def run(ck, F, tier):
                "`t != 0` guard and minus one: %s]; writer: column lists first, tokens = index + 1, 0 = padding" % (col_is_loop, minus1))
     ck.inst("P3", "agree:sections-and-base", ins_ok, ins[0].site if ins else rb.span, why)
     ck.inst("P4", "reader:skips-padding", ins_ok, ins[0].site if ins else rb.span, "token 0 is never turned into an entry (guard `row != 0` dominates the insert)")
+
+    # P5: the writer prints the column lists and the row lists of the same matrix and the reader rebuilds it from the column lists
+    # alone: the text describes one matrix only if the mutators keep the two sets of lists in step (the rule C17-X1, run here)
+    ck.rule("P5", "the row lists and the column lists the text is written from describe the same matrix for everything the mutators can build (the rule C17-X1, run here)")
+    from ..report import RuleAlias
+    from . import c17
+    c17.run(RuleAlias(ck, "P5", only=lambda r_, k_: r_ == "X1"), F, "quick")
